@@ -65,7 +65,7 @@ var (
 // MainC08 is the entry point of the C08 check.
 func MainC08() {
 	ev.Main("C08", "exploration",
-		"generated worlds (permanodes with tag/title/camliNodeType/camliDefVis/camliContent/camliMember/camliPath/numeric attributes, values added repeatedly and then removed, sets with several multi-tagged members, deleted and claim-less permanodes, files with names/sizes/mtimes/wholeRefs incl. two files of one content, nested directories with shared children, plain blobs) x generated constraint trees (depth<=4, nodes with one or several fields set, valueInSet over logical sub-trees, `at` instants at value removals) over the supported fragment x every sort (incl. map) x limits {-1,1,3,0,|M|,|M|-1,|M|+1} x index modes {classic, corpus scanned, corpus incremental, corpus staged = the world delivered in 5 stages with the same queries after every stage, claims often before the file they name and stages without any claim}; each result is compared with a reference evaluator over what has been delivered (set equality at limit -1, order by the documented key, valid first-N) ; distinct = (world, constraint, sort, limit, mode[@stage]); non-trivial = the reference match set is neither empty nor everything",
+		"generated worlds (permanodes with tag/title/camliNodeType/camliDefVis/camliContent/camliMember/camliPath/numeric attributes, custom edge attributes (seeAlso, camliContent naming a permanode; superseded and removed edges) for relation constraints with an explicit edge type in both directions, explicit date attributes (dateCreated, startDate, paymentDueDate, datePublished, dateModified) holding instants shared with other permanodes in several RFC 3339 zone notations, values added repeatedly and then removed, sets with several multi-tagged members, deleted and claim-less permanodes, files with names/sizes/mtimes/wholeRefs incl. two files of one content, nested directories with shared children, plain blobs) x generated constraint trees (depth<=4, nodes with one or several fields set, valueInSet over logical sub-trees, `at` instants at value removals) over the supported fragment x every sort (incl. map) x limits {-1,1,3,0,|M|,|M|-1,|M|+1} x index modes {classic, corpus scanned, corpus incremental, corpus staged = the world delivered in 5 stages with the same queries after every stage, claims often before the file they name and stages without any claim}; each result is compared with a reference evaluator over what has been delivered (set equality at limit -1, order by the documented key, valid first-N) ; distinct = (world, constraint, sort, limit, mode[@stage]); non-trivial = the reference match set is neither empty nor everything",
 		run)
 }
 
@@ -73,7 +73,7 @@ func run(r *ev.Run) {
 	log.SetOutput(io.Discard)
 	index.SetVerboseCorpusLogging(false)
 	r.Assume("file MIME types are read back from the index (MIME sniffing is not this property's subject); every other fact comes from what the harness generated")
-	r.Assume("worlds contain no deleted attribute claims (C07's subject) and none of the explicit date attributes; string data is ASCII")
+	r.Assume("worlds contain no deleted attribute claims (C07's subject); string data is ASCII; a permanode's time follows pkg/index Corpus.PermanodeTime/PermanodeAnyTime: paymentDueDate, startDate, dateCreated attribute (first value, RFC 3339, any zone notation), time of the camliContent file, datePublished, dateModified, date of the camliContent claim, modtime")
 	r.Assume("documented refusals are accepted as errors: sort by mod; sort by created/-created/-mod on constraints that are not syntactically permanode-only; created-ascending when a matched permanode has no time; classic mode (no corpus) is only given the fragment implemented without a corpus and the sorts unsorted/blobref")
 	search.VerifSetCandSourceHook(func(name string) { curPlanner = name })
 
@@ -165,12 +165,16 @@ func run(r *ev.Run) {
 			r.Note("world_features", k)
 		}
 	}
+	r.Require("world_features", "custom-edge/seeAlso", "custom-edge/seeAlso-removed", "custom-edge/seeAlso-superseded", "custom-edge/camliContent-names-permanode",
+		"relation-edge-type/parent/custom:seeAlso", "relation-edge-type/parent/custom:camliContent", "relation-edge-type/child/custom:seeAlso", "relation-edge-type/child/custom:camliContent", "relation-edge-type/parent/default-edge", "relation-edge-type/parent/non-ref-attribute",
+		"date-attr/dateCreated", "date-attr/startDate", "date-attr/paymentDueDate", "date-attr/datePublished", "date-attr/dateModified", "date-attr/notation/Z", "date-attr/notation/+00:00", "date-attr/notation/+02:00", "date-attr/notation/-05:30", "date-attr/notation/unparsable", "date-attr/two-on-one-permanode")
 	r.Require("world_features", "repeated-value-then-del/tag", "repeated-value-then-del/camliMember", "multi-member-set", "shared-wholeref", "multi-field/constraint", "multi-field/permanode", "multi-field/file", "multi-field/dir")
 	r.Require("staged", "stage-without-claims", "late-file-changes-created-time", "content-claim-before-file", "file-indexing-postponed-on-chunk")
 	r.Require("limits", "unlimited", "cuts", "default", "default-200-cuts", "equals-matches", "matches-minus-1", "beyond-matches")
 	r.Require("planner_paths", "corpus_permanode_created", "corpus_permanode_lastmod", "corpus_permanode_types", "one_blob", "corpus_file_meta", "corpus_blob_meta", "index_blob_meta")
 	r.Require("modes", "corpus-incremental", "corpus-scanned", "classic", "corpus-staged")
-	r.Require("outcomes", "exact-set", "ordered", "first-n", "refusal", "refusal-timeless-match", "map-sort", "empty-match", "nonempty-match")
+	r.Require("outcomes", "exact-set", "ordered", "first-n", "refusal", "refusal-timeless-match", "map-sort", "empty-match", "nonempty-match",
+		"relation/parent/custom:seeAlso/matches", "relation/parent/custom:camliContent/matches", "relation/child/custom:seeAlso/matches", "relation/child/custom:camliContent/matches", "created-order-tie-across-zone-notations")
 }
 
 func buildModes(w *sworld) ([]mode, error) {
@@ -259,6 +263,10 @@ func checkConstraint(r *ev.Run, w *sworld, wid string, ci int, c *search.Constra
 		r.Note("outcomes", "empty-match")
 	} else {
 		r.Note("outcomes", "nonempty-match")
+		if pc := c.Permanode; pc != nil && pc.Relation != nil && pc.Relation.EdgeType != "" && len(M) < len(w.pns) {
+			// a relation through an explicit edge type that some permanodes satisfy and others do not
+			r.Note("outcomes", "relation/"+pc.Relation.Relation+"/"+edgeClass(pc.Relation.EdgeType)+"/matches")
+		}
 	}
 	pnOnly := permanodeOnly(c)
 	sorts := []search.SortType{search.UnspecifiedSort, search.Unsorted, search.LastModifiedDesc, search.CreatedDesc, search.CreatedAsc, search.BlobRefAsc}
@@ -414,6 +422,17 @@ func judge(r *ev.Run, w *sworld, wid string, c *search.Constraint, cj []byte, st
 	}
 	order(full)
 	order(reduced)
+	if sortedSource && eff == search.CreatedDesc && lim == -1 {
+		// equal instants that were written in different zone notations: ordered by blobref all the same
+		for i := 1; i < len(reduced); i++ {
+			ta, _ := key(reduced[i-1])
+			tb, _ := key(reduced[i])
+			if ta.Equal(tb) && w.anyZone(reduced[i-1]) != w.anyZone(reduced[i]) {
+				r.Note("outcomes", "created-order-tie-across-zone-notations")
+				break
+			}
+		}
+	}
 	matchesList := func(want []blob.Ref) (bool, string) {
 		n := len(want)
 		if lim > 0 && lim < n {
